@@ -179,9 +179,19 @@ example : AdmAll ⟨Graph.empty, [], [], [], [], true, false⟩
 example :
     let s := BertE.Drv.C01.initSys false false [.dev 4 (some 3), .dev 5 (some 1)]
     let s1 := (step s (.extSet "feature/x" [1] false)).1
-    let s2 := (step s1 (.evalPr ⟨1, "feature/x", .dev 4 (some 3)⟩ .final [] [])).1
+    let s2 := (step s1 (.evalPr ⟨1, "feature/x", .dev 4 (some 3), false⟩ .final [] [])).1
     (s2.remote.get (.dest (.dev 4 (some 3))), s2.remote.get (.dest (.dev 5 (some 1)))) = (some 3, some 4)
       ∧ s2.g.le 3 4 = true := by decide
+
+/-- The same with the option `no_octopus` (the theorems above hold for every `PrInfo`, hence for both strategies):
+    the consecutive merges create the integration commit 4 (`consecutive_merge(w/5.1/.., development/5.1, source)`),
+    and `consecutive_merge(development/5.1, w/5.1/.., development/4.3)` fast-forwards development/5.1 to it. -/
+example :
+    let s := BertE.Drv.C01.initSys false false [.dev 4 (some 3), .dev 5 (some 1)]
+    let s1 := (step s (.extSet "feature/x" [1] false)).1
+    let s2 := (step s1 (.evalPr ⟨1, "feature/x", .dev 4 (some 3), true⟩ .final [] [])).1
+    (s2.remote.get (.dest (.dev 4 (some 3))), s2.remote.get (.dest (.dev 5 (some 1)))) = (some 3, some 4)
+      ∧ s2.g.le 3 4 = true ∧ s2.g.size = 5 := by decide
 
 /-! ### the queue selection computed, not assumed (composition with the model of `QueueCollection._process`)
 
